@@ -18,8 +18,8 @@ import (
 	"net/http/httptest"
 	"os"
 	"regexp"
-	"runtime/debug"
 	"runtime"
+	"runtime/debug"
 	"sort"
 	"strconv"
 	"strings"
@@ -83,6 +83,31 @@ func (x *xctx) tr(format string, a ...interface{}) {
 // outside the simulator's control, e.g. an un-instrumented channel wait).
 var liveCtr int64
 
+// curSeed is the seed the worker is executing (for the stall record).
+var curSeed uint64
+
+// stallSite names the innermost pprof function of the goroutine that is
+// running (or runnable) pprof code, from a full goroutine dump.
+func stallSite(dump string) string {
+	for _, g := range strings.Split(dump, "\n\n") {
+		if !strings.Contains(g, "[running]") && !strings.Contains(g, "[runnable]") && !strings.Contains(g, "[chan receive") && !strings.Contains(g, "[chan send") && !strings.Contains(g, "[select") && !strings.Contains(g, "[sync.") && !strings.Contains(g, "[semacquire") {
+			continue
+		}
+		if strings.Contains(g, "TestVerifWorker.func") && strings.Contains(g, "runtime.Stack") {
+			continue // the watchdog itself
+		}
+		for _, l := range strings.Split(g, "\n") {
+			if strings.HasPrefix(l, "github.com/google/pprof/") && !strings.Contains(l, "verifsim") && !strings.Contains(l, "/driver.c") && !strings.Contains(l, "/driver.run") && !strings.Contains(l, "/driver.exec") && !strings.Contains(l, "/driver.Test") {
+				if p := strings.Index(l, "("); p > 0 {
+					l = l[:p]
+				}
+				return strings.TrimPrefix(l, "github.com/google/pprof/")
+			}
+		}
+	}
+	return "unknown"
+}
+
 // note accumulates scheduler statistics of one simrt.Exec.
 func (x *xctx) note(res simrt.Result) {
 	atomic.AddInt64(&liveCtr, 1)
@@ -98,6 +123,7 @@ func (x *xctx) note(res simrt.Result) {
 	x.stats["map_ranges"] += res.MapRanges
 	x.stats["map_perms"] += res.MapPerms
 	x.stats["unstamped"] += res.Unstamped
+	x.stats["function_entry_yields"] += res.Yields
 	for k, v := range simos.Fired() {
 		x.faults["disk:"+k] += v
 	}
@@ -366,6 +392,7 @@ type replayFile struct {
 	Viol     *violation `json:"violation"`
 	Digest   string     `json:"digest"`
 	Trace    []string   `json:"trace"`
+	BySeed   bool       `json:"by_seed,omitempty"`
 }
 
 // TestVerifWorker is the entry point of every worker process.
@@ -414,7 +441,15 @@ func TestVerifWorker(t *testing.T) {
 			if time.Since(since) > 90*time.Second {
 				buf := make([]byte, 1<<20)
 				n := runtime.Stack(buf, true)
-				fmt.Fprintf(os.Stderr, "STALL: no simulated execution finished for 90 s (a task is blocked on something the simulator does not control, or an unbounded loop). Goroutines:\n%s\n", buf[:n])
+				fmt.Fprintf(os.Stderr, "STALL: no simulated execution finished for 90 s (a task is blocked on something the simulator does not control, or an unbounded loop without calls). Goroutines:\n%s\n", buf[:n])
+				// Leave a record for the seed in progress: the orchestrator re-runs
+				// that seed in a fresh process and reports a hang only if it stalls
+				// there again in the same function.
+				where := stallSite(string(buf[:n]))
+				enc.Encode(&record{Engine: name, Seed: atomic.LoadUint64(&curSeed), OK: false, Viol: &violation{Class: "hang:" + where, Detail: "no simulated execution finished for 90 s; goroutines:\n" + short(string(buf[:n]), 6000)}, Digest: "stall"})
+				if f, ok := interface{}(out).(*os.File); ok {
+					f.Sync()
+				}
 				os.Exit(3)
 			}
 		}
@@ -431,7 +466,12 @@ func TestVerifWorker(t *testing.T) {
 			os.Exit(2)
 		}
 		start := time.Now()
-		x, v := execEngine(e, simrt.ReplayTape(rf.Tape), rf.Seed, rf.Tier, true)
+		atomic.StoreUint64(&curSeed, rf.Seed)
+		tape := simrt.ReplayTape(rf.Tape)
+		if rf.BySeed {
+			tape = simrt.NewTape(rf.Seed) // a stalled run has no complete tape: regenerate it from the seed
+		}
+		x, v := execEngine(e, tape, rf.Seed, rf.Tier, true)
 		r := mkRecord(e, rf.Seed, x, v, time.Since(start))
 		r.Trace = x.trace
 		r.Tape = x.t.Used()
@@ -459,6 +499,7 @@ func TestVerifWorker(t *testing.T) {
 		}
 		start := time.Now()
 		atomic.AddInt64(&liveCtr, 1)
+		atomic.StoreUint64(&curSeed, s)
 		x, v := execEngine(e, simrt.NewTape(s), s, tier, false)
 		r := mkRecord(e, s, x, v, time.Since(start))
 		if v != nil {
